@@ -40,7 +40,7 @@ TrCall ==
 
 TrCallClean ==
   /\ IsEvent("CallClean")
-  /\ CcBegin(ev.th, ev.set, IF ev.all = 1 THEN CHOOSE n \in Names : TRUE ELSE ev.name, ev.all = 1)
+  /\ CcBegin(ev.th, ev.set, IF ev.all = 1 THEN CHOOSE n \in Names : TRUE ELSE ev.name, ev.all = 1, FALSE)
   /\ UNCHANGED idmap
 
 TrLock ==
